@@ -45,6 +45,7 @@ def label_to_coq(l):
     if l == "L": return "LoaderTurn"
     if l == "Kp": return "PersistTick true"
     if l == "Kt": return "PersistTick false"
+    if l[0] == "R": return "LoaderRace %s %s" % (l[1:-1], p(l[-1]))
     raise ValueError(l)
 
 
@@ -146,6 +147,11 @@ def judge(c, drained=None):
             proceeds = sw_before and ring_before < c.maxram // 2
             if proceeds and any(n > lm_before for n in pendP | pendT):
                 trig.add("F24a")
+        elif l[0] == "R":
+            if sw_before and ring_before < c.maxram // 2:
+                trig.add("F24r")
+            spec.append(int(l[1:-1]))
+            pendP, pendT = set(), set()
         elif l == "Kp":
             pendP = set()
         elif l == "Kt":
@@ -179,12 +185,12 @@ def renumber_remove(labels, i):
     """remove label i; if it is a push, drop the settle labels of that message and renumber the later ones"""
     l = labels[i]
     rest = labels[:i] + labels[i + 1:]
-    if l[0] != "P":
+    if l[0] not in "PR":
         return rest
     k = int(l[1:-1])
     out = []
     for x in rest:
-        if x[0] in "PQA":
+        if x[0] in "PQAR":
             n = int(x[1:-1])
             if n == k:
                 continue
@@ -263,6 +269,7 @@ def run(res):
     res.assumptions += ["maxMessagesInRAM >= 2 (F40 otherwise)",
                         "no loader turn proceeds while an overflowed message is still unflushed, either store (F24 otherwise)",
                         "no purge while the queue is swapped to disk (F24 otherwise)",
+                        "no push lands between the iterations and the final flag write of a proceeding loader turn (the loader takes no lock: F24-race otherwise)",
                         "the engine implements IterateByPrefixFrom / DeleteByPrefix / KeysByPrefixCount (badger does; the buntdb wrapper has stubs: F23)",
                         "client well-formedness: ids positive and increasing (GenerateSeq), only delivered unsettled messages are requeued or acked",
                         "pops are compared only when the ring is non-empty or nothing waits on disk (a pop on an empty ring is not a client-visible delivery attempt)"]
